@@ -172,6 +172,13 @@ func cmdRun(args []string) {
 
 // emit writes the Gallina files: one Eval per group, at most shard groups per file.
 func emit(prop string, groups []Group, dir string, shard int) int {
+	// one coqc per file, all files in parallel: about sixteen files for small runs
+	if per := (len(groups) + 15) / 16; per < shard {
+		shard = per
+		if shard < 20 {
+			shard = 20
+		}
+	}
 	nfiles := 0
 	for start := 0; start < len(groups); start += shard {
 		end := start + shard
